@@ -73,6 +73,17 @@ def _safe_run(prop: Prop, case):
         return {"harness_exception": f"{type(e).__name__}: {e}", "tb": traceback.format_exc()[-1500:]}
 
 
+def _oracle(prop: Prop, case, obs):
+    """The property's oracle, never raising: a run the harness could not observe, or an observation the oracle
+    cannot digest, is itself a failure to report (with the case as replay)."""
+    if "harness_exception" in obs:
+        return ["harness-exception: " + obs["harness_exception"] + " | " + obs.get("tb", "")[-400:]]
+    try:
+        return list(prop.oracle(case, obs))
+    except Exception as e:  # noqa: BLE001
+        return [f"harness-exception: oracle raised {type(e).__name__}: {e} | " + traceback.format_exc()[-400:]]
+
+
 def _shrink_oracle(prop: Prop, case, failure_key, budget=150):
     cur = case
     n = 0
@@ -84,7 +95,7 @@ def _shrink_oracle(prop: Prop, case, failure_key, budget=150):
             if n > budget:
                 break
             obs = _safe_run(prop, cand)
-            fails = prop.oracle(cand, obs)
+            fails = _oracle(prop, cand, obs)
             if any(_fkey(f) == failure_key for f in fails):
                 cur, improved = cand, True
                 break
@@ -123,12 +134,15 @@ def run_property(prop: Prop, tier: str, seed: int, replay: str | None = None) ->
     distinct = set()
     for case, obs in results:
         if "harness_exception" in obs:
-            fails = ["harness-exception: " + obs["harness_exception"] + " | " + obs.get("tb", "")[-400:]]
+            fails = _oracle(prop, case, obs)
         else:
-            kinds[prop.kind(case, obs)] += 1
-            if prop.nontrivial(case, obs):
-                distinct.add(json.dumps(case, sort_keys=True, default=str))
-            fails = list(prop.oracle(case, obs))
+            try:
+                kinds[prop.kind(case, obs)] += 1
+                if prop.nontrivial(case, obs):
+                    distinct.add(json.dumps(case, sort_keys=True, default=str))
+            except Exception:  # noqa: BLE001
+                pass
+            fails = _oracle(prop, case, obs)
         for f in fails:
             oracle_fail += 1
             key = prop.finding_key(case, obs, f)
@@ -153,12 +167,15 @@ def run_property(prop: Prop, tier: str, seed: int, replay: str | None = None) ->
     try:
         terms = []
         for idx, (case, obs) in enumerate(results):
-            if hasattr(prop, "multi_coq") and "harness_exception" not in obs:
-                for t in prop.multi_coq(case, obs):
-                    if t is not None:
-                        terms.append((idx, t))
-                continue
-            t = prop.to_coq(case, obs) if "harness_exception" not in obs else None
+            try:
+                if hasattr(prop, "multi_coq") and "harness_exception" not in obs:
+                    for t in prop.multi_coq(case, obs):
+                        if t is not None:
+                            terms.append((idx, t))
+                    continue
+                t = prop.to_coq(case, obs) if "harness_exception" not in obs else None
+            except Exception:  # noqa: BLE001  (an observation the encoder cannot digest: the oracle has already reported it)
+                t = None
             if t is not None:
                 terms.append((idx, t))
         n_corr = len(terms)
@@ -211,7 +228,7 @@ def run_property(prop: Prop, tier: str, seed: int, replay: str | None = None) ->
             searched += 1
             if "harness_exception" in obs:
                 continue
-            fails = [f for f in prop.oracle(case, obs) if prop.finding_key(case, obs, f) not in known]
+            fails = [f for f in _oracle(prop, case, obs) if prop.finding_key(case, obs, f) not in known]
             if fails:
                 small = _shrink_oracle(prop, case, _fkey(fails[0]))
                 out.violation(f"oracle (search after a broken proof/correspondence): {fails[0]}",
